@@ -626,3 +626,47 @@ def assigned_value(stmts: list[ast.stmt], is_target) -> ast.expr | None:
         elif isinstance(s, (ast.For, ast.While, ast.Try, ast.With)) and any(isinstance(n, ast.Assign) and any(is_target(t) for t in n.targets) for n in ast.walk(s)):
             return None
     return val
+
+
+def return_leaves(f: FuncInfo, limit: int = 32) -> list[tuple[list[tuple[ast.expr, bool]], ast.expr]] | None:
+    """The function's result as a decision list: [(conditions as (test, truth) pairs, returned expression with locals expanded)].
+    None when the body is not an if/else tree of returns over locals assigned by plain statements / if-trees."""
+    body = [s for s in f.node.body if not (isinstance(s, ast.Expr) and isinstance(s.value, ast.Constant))]
+    rv = returned_value(body)
+    if rv is None:
+        return None
+    params = set(f.params) | set(f.kwonly)
+
+    def expand(e: ast.expr, depth: int = 0) -> ast.expr:
+        if depth > 4:
+            return e
+        names = {n.id for n in ast.walk(e) if isinstance(n, ast.Name) and isinstance(n.ctx, ast.Load) and n.id not in params and n.id != f.self_name}
+        for nm in sorted(names):
+            av = assigned_value(body, lambda t, nm=nm: isinstance(t, ast.Name) and t.id == nm)
+            if av is not None:
+                e = _substitute(e, nm, expand(av, depth + 1))
+        return e
+
+    rv = expand(rv)
+    out: list[tuple[list[tuple[ast.expr, bool]], ast.expr]] = []
+
+    def first_ifexp(e: ast.expr) -> ast.IfExp | None:
+        for n in ast.walk(e):
+            if isinstance(n, ast.IfExp):
+                return n
+        return None
+
+    def split(e: ast.expr, conds: list[tuple[ast.expr, bool]]) -> None:
+        if len(out) > limit:
+            return
+        ie = first_ifexp(e)
+        if ie is None:
+            out.append((conds, e))
+            return
+        text = ast.unparse(e)
+        it = ast.unparse(ie)
+        for branch, truth in ((ie.body, True), (ie.orelse, False)):
+            new = ast.parse(text.replace(it, f"({ast.unparse(branch)})", 1), mode="eval").body
+            split(new, [*conds, (ie.test, truth)])
+    split(rv, [])
+    return out
